@@ -34,9 +34,9 @@ class Provider(object):
     def name(self, base, pattern, previous):
         out = ''
         for k, ch in enumerate(pattern):
-            if ch in 'LDB':
+            if ch in 'LDBUV':
                 v = self.m.get('%s.%d' % (base, k))
-                out += chr(int(v)) if v is not None else {'L': 'a', 'D': '1', 'B': ' '}[ch]
+                out += chr(int(v)) if v is not None else {'L': 'a', 'D': '1', 'B': ' ', 'U': 'A', 'V': ' '}[ch]
             else: out += ch
         return out
 
@@ -97,7 +97,8 @@ class Cmp(object):
             self.ob(a is None and b is None, '%s: absent text stays absent' % where); return
         if not isinstance(b, str): self.ob(False, '%s: text expected (%r)' % (where, b)); return
         if name: self.ob(len(a) == 5 and b == held(a), '%s: same name (repaired form) (%r -> %r)' % (where, a, b)); return
-        if strip: self.ob(a.rstrip() == b.rstrip(), '%s: same text (%r -> %r)' % (where, a, b))
+        if strip == 'both': self.ob(a.strip() == b.strip(), '%s: same text (%r -> %r)' % (where, a, b))
+        elif strip: self.ob(a.rstrip() == b.rstrip(), '%s: same text (%r -> %r)' % (where, a, b))
         else: self.ob(a == b, '%s: same text (%r -> %r)' % (where, a, b))
     def reals(self, A, B, where, exact=False):
         A = list(A) if A is not None else None
@@ -113,11 +114,61 @@ def stripped(path):
     return [l.rstrip(' \n') for l in open(path)]
 
 
+class CDig(object):
+    """the digits / signs of the solver's model for the Fortran-style writer"""
+    def __init__(self, m): self.m = m
+    def __call__(self, name, n, first_nonzero):
+        return [chr(int(self.m.get('fd.%s.%d' % (name, k), 49))) for k in range(n)]
+    def sign(self, name):
+        return chr(int(self.m.get('fd.%s' % name, 32)))
+
+
+def replay_fortran(d):
+    """write the Fortran-style files with the model's digits, read them with the Fortran read
+    functions, compare every number with the exact decimal value printed; then write / read / write"""
+    import t2data as T
+    from harness.c01_model import FORMATS, compare, fortran_files
+    shape = d['shape']
+    files, V, Gt = fortran_files(CDig(d['model']), shape)
+    tmp = tempfile.mkdtemp(); cwd = os.getcwd(); os.chdir(tmp)
+    cmp = Cmp(FORMATS)
+    try:
+        for name, lines in files.items():
+            with open(name, 'w') as f: f.write(''.join(''.join(l) for l in lines))
+        mesh = 'FMESH' if shape.get('meshfile') else ''
+        try:
+            dat2 = T.t2data('f.dat', mesh, read_function=T.fortran_read_function)
+            if list(dat2._sections) != shape['sections']: cmp.problems.append('fortran sections: %r read as %r' % (shape['sections'], dat2._sections))
+            for name, spec in V.items():
+                want = Fraction(int(''.join(spec['digits']))) * Fraction(10) ** spec['exp']
+                if spec['sign'] == '-': want = -want
+                try: got = Gt[name](dat2)
+                except Exception as ex: got = None
+                if got is None or float(got) != float(want):
+                    cmp.problems.append('fortran %s: printed %r, the object holds %r' % (name, float(want), got))
+            sec_read = list(dat2._sections)
+            dat2.write('m2.dat', 'MESH2' if mesh else '')
+            dat3 = T.t2data('m2.dat', 'MESH2' if mesh else '')
+            if list(dat3._sections) != sec_read: cmp.problems.append('rewritten sections: read with %r, after write and read %r' % (sec_read, dat3._sections))
+            compare(cmp, dat2, dat3, shape, where='rewritten ')
+            dat3.write('m3.dat', 'MESH3' if mesh else '')
+            if stripped('m2.dat') != stripped('m3.dat'): cmp.problems.append('rewrite: second data file differs from the first')
+            if mesh and stripped('MESH2') != stripped('MESH3'): cmp.problems.append('rewrite-mesh: second MESH file differs')
+        except Exception as ex:
+            import traceback
+            cmp.problems.append('exception %s: %s | %s' % (type(ex).__name__, ex, traceback.format_exc()[-400:].replace('\n', ' / ')))
+    finally:
+        os.chdir(cwd); shutil.rmtree(tmp, ignore_errors=True)
+    if cmp.problems: return True, '%d problems: %s' % (len(cmp.problems), '; '.join(cmp.problems[:6]))
+    return False, 'fortran-style files read and rewritten ok'
+
+
 def replay(d):
     import numpy as np
     import t2data as T, t2grids as G
-    from harness.c01_model import FORMATS, build, compare
+    from harness.c01_model import FORMATS, build, compare, add_sections, grid_info
     shape = d['shape']
+    if shape.get('kind') == 'fortran': return replay_fortran(d)
     prov = Provider(d['model'], T.t2data_format_specification, T.t2data_extra_precision_format_specification)
     tmp = tempfile.mkdtemp()
     cwd = os.getcwd()
@@ -128,24 +179,46 @@ def replay(d):
         mesh = 'MESH' if shape.get('meshfile') else ''
         kw = {}
         if shape.get('xp'): kw = dict(extra_precision=shape.get('xp_sections', True), echo_extra_precision=shape.get('echo', True))
+        F1 = shape.get('fname', 'm1.dat'); R1 = shape.get('read_as', F1)
+        ext, ext_when = shape.get('extend'), shape.get('extend_when', 'read')
+        def listed(obj, what):
+            miss = [s for s in obj.present_sections if s not in obj._sections]
+            if miss: cmp.problems.append('sections-listed: after %s the object holds data of %r, which are not listed sections' % (what, miss))
+        def xp_name(fname):
+            d, f = os.path.split(os.path.normpath(fname)); base = os.path.splitext(f)[0]
+            return os.path.join(d, base + ('.PDAT' if base[0].isupper() else '.pdat'))
         try:
-            dat.write('m1.dat', mesh, **kw)
-            dat2 = T.t2data('m1.dat', mesh)
+            dat.write(F1, mesh, **kw)
+            if ext and ext_when == 'write':
+                add_sections(prov, T, G, np, dat, shape, ext, grid_info(dat))
+                dat.write(F1, mesh, **kw)
+            listed(dat, 'the first write')
+            dat2 = T.t2data(R1, mesh)
             compare(cmp, dat, dat2, shape)
             if shape.get('xp'):
                 if list(dat2.extra_precision) != list(dat.extra_precision): cmp.problems.append('xp-state: extra-precision sections %r read back as %r' % (dat.extra_precision, dat2.extra_precision))
                 if bool(dat2.echo_extra_precision) != bool(dat.echo_extra_precision): cmp.problems.append('xp-state: echo flag %r read back as %r' % (dat.echo_extra_precision, dat2.echo_extra_precision))
+            extended = bool(ext and ext_when == 'read')
+            sec_read = list(dat2._sections)
+            if extended: add_sections(prov, T, G, np, dat2, shape, ext, grid_info(dat2))
             dat2.write('m2.dat', 'MESH2' if mesh else '')
-            if stripped('m1.dat') != stripped('m2.dat'):
-                diff = [(i, a, b) for i, (a, b) in enumerate(zip(stripped('m1.dat'), stripped('m2.dat'))) if a != b][:2]
-                cmp.problems.append('rewrite: second data file differs from the first: %r' % (diff or 'length',))
-            if mesh and stripped('MESH') != stripped('MESH2'): cmp.problems.append('rewrite-mesh: second MESH file differs')
-            if shape.get('xp') and stripped('m1.pdat') != stripped('m2.pdat'): cmp.problems.append('rewrite-xp: second extra-precision file differs')
+            listed(dat2, 'the second write')
+            if not extended:
+                if stripped(F1) != stripped('m2.dat'):
+                    diff = [(i, a, b) for i, (a, b) in enumerate(zip(stripped(F1), stripped('m2.dat'))) if a != b][:2]
+                    cmp.problems.append('rewrite: second data file differs from the first: %r' % (diff or ('length %d -> %d' % (len(stripped(F1)), len(stripped('m2.dat')))),))
+                if mesh and stripped('MESH') != stripped('MESH2'): cmp.problems.append('rewrite-mesh: second MESH file differs')
+                if shape.get('xp'):
+                    if not os.path.exists(xp_name(F1)): cmp.problems.append('xp-name: no companion file %s (directory holds %r)' % (xp_name(F1), sorted(os.listdir('.'))))
+                    elif stripped(xp_name(F1)) != stripped('m2.pdat'): cmp.problems.append('rewrite-xp: second extra-precision file differs')
             if shape.get('cycles', 3) >= 3:
                 dat3 = T.t2data('m2.dat', 'MESH2' if mesh else '')
-                compare(cmp, dat2, dat3, shape, exact=True, where='cycle2 ')
+                if not extended and list(dat3._sections) != sec_read: cmp.problems.append('cycle2 sections: read with %r, after write and read %r' % (sec_read, dat3._sections))
+                compare(cmp, dat2, dat3, shape, exact=not extended, where='cycle2 ')
                 dat3.write('m3.dat', 'MESH3' if mesh else '')
-                if open('m2.dat').read() != open('m3.dat').read(): cmp.problems.append('cycle: third data file differs from the second')
+                if extended:
+                    if stripped('m2.dat') != stripped('m3.dat'): cmp.problems.append('cycle: third data file differs from the second')
+                elif open('m2.dat').read() != open('m3.dat').read(): cmp.problems.append('cycle: third data file differs from the second')
                 if mesh and open('MESH2').read() != open('MESH3').read(): cmp.problems.append('cycle-mesh: third MESH file differs')
         except Exception as ex:
             import traceback
